@@ -186,6 +186,12 @@ func c13Run(c *fw.Ctx) {
 			hdr.Set("Cookie", harness.CookieName+"="+e.Seal(sess))
 		}
 		e.Auth.Answer = func(cl *harness.AuthCall) harness.AuthAnswer { cl.Answer = "500"; return ans(500, "no checks are due") }
+		// a client-chosen X-Forwarded-Host naming the host the cookie was obtained for must not help
+		xfh := ""
+		if who > 0 && x.Choose("x-forwarded-host", 2) == 1 {
+			xfh = boundTo
+			hdr.Set("X-Forwarded-Host", xfh)
+		}
 		req := harness.NewRequest("GET", "/page", "placeholder.test", hdr, nil)
 		req.Host = host
 		resp := e.Do(req)
@@ -194,7 +200,7 @@ func c13Run(c *fw.Ctx) {
 		}
 		desc := map[string]interface{}{"upstreams_in_document_order": set, "resolved_order": c13Order(ce.order), "host": host, "status": resp.Status, "location": resp.Location}
 		if sess != nil {
-			desc["cookie"] = fmt.Sprintf("user=%s bound=%s slug=%s", sess.Email, sess.AuthorizedUpstream, sess.ProviderSlug)
+			desc["cookie"] = fmt.Sprintf("user=%s bound=%s slug=%s x-forwarded-host=%q", sess.Email, sess.AuthorizedUpstream, sess.ProviderSlug, xfh)
 		}
 		var hitNames []string
 		for _, h := range resp.Hits {
@@ -279,7 +285,7 @@ func init() {
 		ID:    "C13",
 		Level: "exploration",
 		Rule: "full product over upstream sets of 2-3 routes drawn from {simple a.sso.test, simple b.sso.test with provider_slug, simple with port, rewrite ^svc-(\\d+)\\.sso\\.test$ -> 127.0.0.1:$1, overlapping rewrite with a fixed backend, simple host that also matches that rewrite} in several orders, loaded through YAML -> SetUpstreamConfigs -> proxy.New with one recording backend per target; " +
-			"Host values {exact, upper-case, with port, port-qualified route with and without port, matching both rewrites, matching only the second, upper-case rewrite host, look-alike, matching none, empty} x cookie {none, user of each upstream} x cookie host binding {this host, two simple hosts, a sibling host of the same rewrite pattern, two more} x cookie slug {own, target's}; " +
+			"Host values {exact, upper-case, with port, port-qualified route with and without port, matching both rewrites, matching only the second, upper-case rewrite host, look-alike, matching none, empty} x cookie {none, user of each upstream} x cookie host binding {this host, two simple hosts, a sibling host of the same rewrite pattern, two more} x cookie slug {own, target's} x X-Forwarded-Host {absent, the host the cookie is bound to}; " +
 			"oracle = reference router over the order in which the configuration resolved the upstreams (exact simple match first, else first matching rewrite; backend = substitution), 421 and no backend for no route, policy/cookie binding/sign-in provider of that upstream only, a session for another host never accepted; " +
 			"distinct_nontrivial = distinct (upstream set, host class, cookie user, status, backends hit)",
 		Assumptions:    []string{"case and port variants of a configured simple host may either route to that upstream or get 421 (the statement says exact match)"},
